@@ -122,11 +122,46 @@ def owned_scan(prog, cs):
     return out
 
 
+def errwf_scan(prog):
+    """static check behind the `well-formed error` fact used at type assertions on error values: every conversion of a pointer into the
+    interface type `error` anywhere in the module converts a fresh allocation (the address of a composite literal / new), or produces a
+    value that is only compared.  One obligation per conversion site, named by function and ordinal."""
+    out = {'fn': '@errwf', 'status': 'ok', 'obls': {}, 'assumptions': [], 'inlined': [], 'paths': 0, 'gen_s': 0, 'solve_s': 0, 'error': None}
+    def regs(x, acc):
+        if isinstance(x, dict):
+            if x.get('k') in ('reg', 'param'): acc.append(x['name'])
+            else:
+                for v in x.values(): regs(v, acc)
+        elif isinstance(x, list):
+            for v in x: regs(v, acc)
+        return acc
+    bad = []; nsites = 0
+    for name, fn in sorted(prog.funcs.items()):
+        if not fn.blocks: continue
+        sn = ir_short(prog, name)
+        ins_all = [i for b in fn.blocks for i in b['instrs']]
+        byname = {i['name']: i for i in ins_all if i.get('name')}
+        for i in ins_all:
+            if i['op'] != 'MakeInterface' or i.get('type') != 'error' or not str(i['x'].get('type', '')).startswith('*'): continue
+            nsites += 1
+            src = byname.get(i['x'].get('name')) if i['x'].get('k') == 'reg' else None
+            if src and src['op'] == 'Alloc': continue
+            users = [j for j in ins_all if j is not i and j['op'] != 'DebugRef' and i['name'] in regs({a: b for a, b in j.items() if a != 'name'}, [])]
+            if users and all(j['op'] == 'BinOp' and j.get('binop') in ('==', '!=') for j in users): continue
+            bad.append('%s: operand %s of type %s is not a fresh allocation and the value escapes (%s)' % (sn, i['x'].get('name'), i['x'].get('type'), i.get('pos')))
+    # one obligation for the module (a per-site name would vanish with a harmless edit that removes the site)
+    out['obls']['@errwf/static/module'] = {'status': 'discharged' if not bad else 'refuted', 'kind': 'errwf', 'instances': max(1, nsites), 'time_s': 0.0, 'backends': ['ssa-scan'],
+        'text': 'every conversion of a pointer to the interface type error in the module (%d sites) converts a fresh allocation or yields a value that is only compared: no typed-nil error is created (%s)' % (nsites, '; '.join(bad[:5])),
+        'where': 'module', 'models': [], 'traces': [], 'results': ['unsat' if not bad else 'sat']}
+    return out
+
+
 def run_function(name):
     """worker: verify one function; returns plain data"""
     from verify import Verifier
     prog, cs, opts = _G['prog'], _G['cs'], _G['opts']
     if name == '@owned': return owned_scan(prog, cs)
+    if name == '@errwf': return errwf_scan(prog)
     v = Verifier(prog, cs, dict(opts))
     t0 = time.time()
     out = {'fn': name, 'status': 'ok', 'obls': {}, 'assumptions': [], 'inlined': [], 'paths': 0, 'gen_s': 0, 'solve_s': 0, 'error': None}
@@ -189,11 +224,13 @@ def main():
     load_s = time.time() - t0
     fns = sorted(n for n, c in cs.funcs.items() if c.kind == 'func' and pid in c.properties and not c.trusted)
     if any(pid in o[0] for o in cs.owned) or any(pid in o[0] for o in cs.binds): fns.append('@owned')
+    fns.append('@errwf')
     if only: fns = [f for f in fns if only in f]
     trusted = sorted(n for n, c in cs.funcs.items() if c.kind == 'func' and c.trusted)
     externs = sorted(n for n, c in cs.funcs.items() if c.kind in ('extern', 'functype', 'iface'))
     opts = {'timeout': 5000 if tier == 'quick' else 30000, 'seed': seed, 'inner_jobs': 1}
     if tier == 'thorough': opts['overflow'] = True; opts['budget_s'] = 1500
+    if os.environ.get('GOCV_NILRECV', '1') != '0': opts['nilrecv'] = True
     _G.update(prog=prog, cs=cs, opts=opts)
     import multiprocessing as mp
     from concurrent.futures import ProcessPoolExecutor, as_completed
@@ -260,7 +297,7 @@ def main():
             # the contract no longer binds to the code (renamed local, new loop without invariant, construct outside the supported subset):
             # nothing is refuted, the function is UNDECIDED - reported loudly, never as a violation (a failed proof is not a counterexample)
             undecided_fns.add(fn); unbound.append(nm)
-        elif prog is not None and fn != '@owned' and not any(ir_short(prog, f) == fn.split(' @')[0] for f in prog.funcs):
+        elif prog is not None and fn not in ('@owned', '@errwf') and not any(ir_short(prog, f) == fn.split(' @')[0] for f in prog.funcs):
             unbound.append(nm)
         elif fn not in [r['fn'] for r in results]:
             unbound.append(nm)
